@@ -22,7 +22,7 @@ namespace PsV
 def idx3 (n s2 i j k : Nat) : Nat := i * s2 * n + j * s2 + k
 
 /-- `out[p] = v` -/
-def setAt {α : Type} (f : Nat → α) (p : Nat) (v : α) : Nat → α := fun q => if q = p then v else f q
+def monoSetAt {α : Type} (f : Nat → α) (p : Nat) (v : α) : Nat → α := fun q => if q = p then v else f q
 
 /-- `for (v = lo; v < lo + cnt; v++) st = body v st` -/
 def forUp {σ : Type} : (cnt : Nat) → (lo : Nat) → (body : Nat → σ → σ) → σ → σ
@@ -31,7 +31,7 @@ def forUp {σ : Type} : (cnt : Nat) → (lo : Nat) → (body : Nat → σ → σ
 
 /-- one statement of the innermost loop: `out[idx i j k] = add out[idx i j k] out[idx i (j-1) k]` -/
 def cumStep {α : Type} (add : α → α → α) (n s2 i j k : Nat) (out : Nat → α) : Nat → α :=
-  setAt out (idx3 n s2 i j k) (add (out (idx3 n s2 i j k)) (out (idx3 n s2 i (j-1) k)))
+  monoSetAt out (idx3 n s2 i j k) (add (out (idx3 n s2 i j k)) (out (idx3 n s2 i (j-1) k)))
 
 /-- the three nested loops, literally -/
 def cumsumLoop {α : Type} (add : α → α → α) (s1 n s2 : Nat) (out : Nat → α) : Nat → α :=
